@@ -27,7 +27,7 @@ for prop in ("C03", "C04"):
     open_("D27", prop, "a DELETE is silently skipped (and reports the row as deleted) while another transaction's delete of the row is pending: no write-write conflict is raised; if the other transaction then rolls back the row survives both", "O-state", "concurrent_writers_same_row", "findings/D27-delete-skipped-when-another-delete-pending.json")
     fixed("D27b", prop, "2194af4", "a DELETE was silently skipped when another transaction's delete of the row had been rolled back (the stale mark made Tuple::delete return early); index entries likewise, so a UNIQUE key stayed blocked", "O-res", "findings/D27b-delete-after-rolled-back-delete-is-skipped.json")
 open_("D6", "C03", "DROP TABLE inside a session destroys the table before commit (tree deallocated at statement time)", "O-state", "drop_table_inside_session", "findings/D6-drop-table-in-session-destroys-table.json")
-open_("D23", "C03", "in a session a multi-row INSERT whose 2nd row violates a constraint leaves the 1st row; COMMIT publishes it", "O-state", "failing_multi_row_insert_in_session", "findings/D23-failed-multi-row-insert-leaves-rows.json")
+open_("D23", "C03", "in a session a multi-row INSERT whose 2nd row violates a constraint leaves the 1st row; COMMIT publishes it", "O-state", "failing_multi_row_statement_in_session", "findings/D23-failed-multi-row-insert-leaves-rows.json")
 open_("D7", "C03", "any UPDATE of a table that has a PRIMARY KEY / UNIQUE index fails with 'datatype mismatch ... BigUInt'", "O-res", "history_contains_update", "findings/D7-update-on-table-with-unique-index.json")
 open_("D24", "C03", "UPDATE of a column of a PRIMARY KEY table fails with 'unexpected data type: Int'", "O-res", "history_contains_update", "findings/D24-update-of-column-on-pk-table.json")
 open_("D25", "C03", "after UPDATE, a DELETE followed by a read in the same transaction shows the pre-update version again", "O-res", "history_contains_update", "findings/D25-own-delete-after-update-shows-old-version.json")
@@ -97,14 +97,14 @@ open_("T1", "C14", "two client threads inserting into the same table lose acknow
 fixed("D3", "C01", "04e35a2", "a transaction open at the crash on a table whose CREATE is still in the log made open fail ('Table not found'): undo runs before redo", "O-open", "findings/D3-open-txn-on-uncheckpointed-table.json")
 fixed("D3b", "C08", "04e35a2", "an uncommitted CREATE TABLE in the log at the crash made open fail ('Table not found' while undoing it)", "O-open", "findings/D3b-uncommitted-create-at-crash.json")
 fixed("D3c", "C01", "3f04a4b", "a committed CREATE TABLE logged after a CREATE of a transaction that never committed was re-created under a lower object id during redo (and the committed transactions were redone in transaction-id order, not log order): the records that followed did not find their table and open failed", "O-open", "findings/D3c-table-created-after-an-uncommitted-create-comes-back-under-another-id.json")
-open_("D22b", "C01", "a crash inside a checkpoint, between its first page write and the log truncation, loses acknowledged rows or leaves tables unreadable (logical redo over half-written pages)", "O-durability", "crash_inside_checkpoint", "findings/D22b-crash-inside-checkpoint.json")
+open_("D22b", "C01", "a crash inside a checkpoint, between its first page write and the log truncation, loses acknowledged rows or leaves tables unreadable (logical redo over half-written pages)", "O-durability", "crash_inside_checkpoint_page_writes", "findings/D22b-crash-inside-checkpoint.json")
 open_("F4", "C01", "a checkpoint taken while a transaction is open writes its uncommitted changes and discards the log: after a crash they are permanent", "O-durability", "checkpoint_with_open_txn", "findings/F4-checkpoint-with-open-txn.json")
 fixed("F5", "C02", "d9227de", "a transaction that inserted and then deleted a row and is open (or failed) at the crash left that row behind after recovery", "O-atomicity", "findings/F5-own-insert-then-delete-open-at-crash.json")
 open_("D6c", "C01", "DROP TABLE writes freed pages to the file before the transaction commits; a crash then makes open fail while redoing the table's logged rows", "O-open", "drop_table_before_crash", "findings/D6c-drop-table-writes-pages-before-commit.json")
-open_("F7", "C01", "recovery of rows with overflow chains (several KB of text) leaves the table unreadable (panic at storage/core/buffer.rs:570)", "O-open", "big_rows_before_crash", "findings/F7-recovery-of-rows-with-overflow-chains.json")
-open_("D6d", "C01", "deleting a row with an overflow chain writes the freed pages to the file before commit; after a crash the acknowledged row comes back corrupted", "O-durability", "big_rows_before_crash", "findings/D6d-delete-of-overflow-row-writes-pages-before-commit.json")
+open_("F7", "C01", "recovery of rows with overflow chains (several KB of text) leaves the table unreadable (panic at storage/core/buffer.rs:570)", "O-open", "rows_with_overflow_chains", "findings/F7-recovery-of-rows-with-overflow-chains.json")
+open_("D6d", "C01", "deleting a row with an overflow chain writes the freed pages to the file before commit; after a crash the acknowledged row comes back corrupted", "O-durability", "rows_with_overflow_chains", "findings/D6d-delete-of-overflow-row-writes-pages-before-commit.json")
 open_("S1", "C01", "once cache eviction has written a dirty page back before the next checkpoint (steal), a crash makes open fail or lose acknowledged rows: logical redo runs over pages that already hold the changes", "O-open", "crash_after_stolen_page", "findings/S1-crash-after-an-evicted-dirty-page-was-written-back.json")
-open_("F6", "C08", "recovery truncates the log before the pages it redid are durable: a crash right after a recovery loses everything it recovered", "O-repeat", "crash_after_recovery_truncate", "findings/F6-recovery-truncates-log-before-redone-pages-are-durable.json")
+open_("F6", "C08", "recovery truncates the log before the pages it redid are durable: a crash right after a recovery loses everything it recovered", "O-repeat", "crash_after_recovery_truncated_log", "findings/F6-recovery-truncates-log-before-redone-pages-are-durable.json")
 
 # ---- open findings: E3a (WAL) ----
 fixed("W1", "C17", "abc1c6f", "an append whose size lay between (block size - 2 headers) and the advertised max_record_size was rejected after the log header had been updated; reading the log then failed until the next force", "O-wal", "findings/W1-rejected-append-leaves-log-unreadable-until-next-force.json")
